@@ -13,8 +13,8 @@ pub fn build(p: &str) -> Result<D, String> {
         .configure(
             dense::Config::new()
                 .start_kind(StartKind::Anchored)
-                .dfa_size_limit(Some(256 << 20))
-                .determinize_size_limit(Some(256 << 20)),
+                .dfa_size_limit(Some(48 << 20))
+                .determinize_size_limit(Some(48 << 20)),
         )
         .build(p)
         .map_err(|e| e.to_string().replace(' ', "_"))
